@@ -62,29 +62,62 @@ theorem foldl_add_sum {α : Type} (f : α → R) (l : List α) (a : R) :
   | nil => simp
   | cons x xs ih => simp only [List.foldl_cons, List.map_cons, List.sum_cons, ih]; ring
 
-theorem volStep_eq (pos : Nat → V3 R) (v : R) (t : Tri) : volStep pos v t = v + tdet pos t := by
-  obtain ⟨a, b, c⟩ := t
-  simp only [volStep, tdet, det3] <;> ring
+/-- the positions seen from the reference point `o` -/
+def rel (pos : Nat → V3 R) (o : V3 R) : Nat → V3 R := fun i => pos i - o
 
-theorem svStep_eq (pos : Nat → V3 R) (v : R) (t : Tri) : svStep pos v t = v + tdet pos t := by
+theorem volStep_eq (pos : Nat → V3 R) (o : V3 R) (v : R) (t : Tri) : volStep pos o v t = v + tdet (rel pos o) t := by
   obtain ⟨a, b, c⟩ := t
-  simp only [svStep, tdet, det3] <;> ring
+  simp only [volStep, tdet, det3, rel] <;> ring
 
-theorem volSum_eq (pos : Nat → V3 R) (T : List Tri) : volSum pos T = (T.map (tdet pos)).sum := by
-  unfold volSum
-  have : volStep pos = fun s t => s + tdet pos t := by funext s t; exact volStep_eq pos s t
+theorem svStep_eq (pos : Nat → V3 R) (o : V3 R) (v : R) (t : Tri) : svStep pos o v t = v + tdet (rel pos o) t := by
+  obtain ⟨a, b, c⟩ := t
+  simp only [svStep, tdet, det3, rel] <;> ring
+
+/-- the loop of `compute_volume`, coordinates relative to `o`: the sum of the determinants of the relative positions -/
+theorem volSumAt_eq (pos : Nat → V3 R) (o : V3 R) (T : List Tri) : volSumAt pos o T = (T.map (tdet (rel pos o))).sum := by
+  unfold volSumAt
+  have : volStep pos o = fun s t => s + tdet (rel pos o) t := by funext s t; exact volStep_eq pos o s t
   rw [this, foldl_add_sum]; simp [volInit]
 
-theorem svSum_eq (pos : Nat → V3 R) (T : List Tri) : svSum pos T = (T.map (tdet pos)).sum := by
-  unfold svSum
-  have : svStep pos = fun s t => s + tdet pos t := by funext s t; exact svStep_eq pos s t
+theorem svSumAt_eq (pos : Nat → V3 R) (o : V3 R) (T : List Tri) : svSumAt pos o T = (T.map (tdet (rel pos o))).sum := by
+  unfold svSumAt
+  have : svStep pos o = fun s t => s + tdet (rel pos o) t := by funext s t; exact svStep_eq pos o s t
   rw [this, foldl_add_sum]; simp [svInit]
 
-theorem volume_eq (pos : Nat → V3 R) (T : List Tri) : volume pos T = |(T.map (tdet pos)).sum| / 6 := by
+/-- what `compute_volume` sums: the determinants of the positions relative to `get_volume_reference_point()` -/
+theorem volSum_eq (pos : Nat → V3 R) (T : List Tri) :
+    volSum pos T = (T.map (tdet (rel pos (refPoint pos T)))).sum := by
+  unfold volSum volOrigin; exact volSumAt_eq pos _ T
+
+theorem svSum_eq (pos : Nat → V3 R) (T : List Tri) :
+    svSum pos T = (T.map (tdet (rel pos (refPoint pos T)))).sum := by
+  unfold svSum svOrigin; exact svSumAt_eq pos _ T
+
+theorem volume_eq (pos : Nat → V3 R) (T : List Tri) :
+    volume pos T = |(T.map (tdet (rel pos (refPoint pos T)))).sum| / 6 := by
   unfold volume volFinish
   simp only [sabs_eq_abs, volSum_eq]
   rw [abs_div]; congr 1
   simp [lit_eq]
+
+/-- `get_volume_reference_point` on a non-empty face list: the first node of the first face -/
+theorem refPoint_cons (pos : Nat → V3 R) (t : Tri) (T : List Tri) : refPoint pos (t :: T) = pos t.1 := by
+  simp [refPoint, volRefOfFace]
+
+theorem refPoint_nil (pos : Nat → V3 R) : refPoint pos [] = ⟨0, 0, 0⟩ := by
+  simp [refPoint, volRefDefault, lit_eq]
+
+/-- the reference point follows every map of the positions (on the empty list there is nothing to sum) -/
+theorem refPoint_map (g : V3 R → V3 R) (pos : Nat → V3 R) (t : Tri) (T : List Tri) :
+    refPoint (fun i => g (pos i)) (t :: T) = g (refPoint pos (t :: T)) := by
+  rw [refPoint_cons, refPoint_cons]
+
+/-- the reference point only depends on the first face -/
+theorem refPoint_mapTri (r : Tri → Tri) (hr : ∀ t, (r t).1 = t.1) (pos : Nat → V3 R) (T : List Tri) :
+    refPoint pos (T.map r) = refPoint pos T := by
+  cases T with
+  | nil => rfl
+  | cons t T => rw [List.map_cons, refPoint_cons, refPoint_cons, hr]
 
 /-! ### vectors as an additive group with scalar action (only what is needed) -/
 
